@@ -68,7 +68,7 @@ def native(cfile, defines=(), extra_flags=(), tag='', sanitize=False):
     so = base + (('_' + tag) if tag else '') + EXT_SUFFIX
     cmd = ['gcc', '-shared', '-fPIC', '-O1', '-fwrapv', '-w', '-I' + PYINC] + ['-D' + d for d in defines] + list(extra_flags)
     if sanitize:
-        cmd = ['clang-14', '-shared', '-fPIC', '-O1', '-w', '-fsanitize=undefined', '-fno-sanitize-recover=undefined',
+        cmd = ['gcc', '-shared', '-fPIC', '-O1', '-w', '-fsanitize=undefined', '-fno-sanitize-recover=undefined',
                '-I' + PYINC] + ['-D' + d for d in defines] + list(extra_flags)
     _run(cmd + [cfile, '-o', so])
     return so
